@@ -6,6 +6,12 @@
 // Layer B (pipe.go, gen.go, judge.go): the real pipeline [dns64, stub] wired
 // by middleware.Setup; generated (configuration, client query, downstream
 // responses) triples judged against the property statement.
+// Layer C (wire.go): the full pipeline in production order (stack.New: … edns …
+// as112, dns64, cache, stub) and a bare [dns64, cache, stub] one, entered through
+// the strict-job WIRE entries (Server.ServeRaw UDP/TCP, inline pass + replay) and
+// through Server.ServeMsg with the same generated cases; the real failure cache
+// and request-local provenance sit below dns64; every reply judged with the
+// rules of layer B and the wire entries compared with the decoded entry.
 package main
 
 import (
@@ -157,6 +163,9 @@ func main() {
 	r.Assume("a reply AAAA record is 'synthesised' iff the scripted downstream did not send it (owner, address, TTL)")
 	r.Assume("AAAA negative TTL = min(SOA TTL, SOA MINIMUM) of the single SOA in the authority section of a NOERROR AAAA response without AAAA records; no bound is applied otherwise")
 	r.Assume("SERVFAIL with EDE 5-12 is a DNSSEC validation failure; SERVFAIL with only EDE 1, 2, 25 or 27 is left undecided (either behaviour accepted, counted as *_open_*)")
+	r.Assume("layer C: the downstream response the oracle judges against is the message recorded by a harness observer directly below dns64 (client pass and secondary A / in-addr.arpa lookups, with the failure provenance visible on the context dns64 handed down); where a request passed dns64 undecoded, the scripted stub's reply stands")
+	r.Assume("layer C: a cached failure is a SERVFAIL served below dns64 for a repeated question without consulting the stub (the real RFC 9520 failure cache; first query fails and is recorded); a request-local failure is a stub reply marked with middleware.MarkRequestLocalFailureResponse for an attempt-limit, deadline, max-recursion, work-limit, shed, probe-limit or cancellation error")
+	r.Assume("layer C: truncated replies (TC=1, content removed by edns) are counted, not judged; a PTR name under an RFC 6303 empty zone that as112 answers ahead of dns64 (production order, query never reached dns64) is counted as ptr_shadowed_by_empty_zone, not as a missing translation; wire and decoded entries are compared on rcode, AD and answer section (TTL ignored on a repeated question) only when both were answered from the same basis below dns64")
 	r.Assume("default WKP IPv4 exclusions: IANA special-purpose entries with Globally Reachable=False must be skipped; 192.0.0.0/24, 192.88.99.0/24, 224.0.0.0/4 may be skipped or translated")
-	r.Finish("pure: every octet-boundary IPv4 (0,1,127,128,255 per octet) plus random addresses x generated prefixes of each legal length, illegal lengths/IPv4//96-with-nonzero-u refused; pipeline: generated configs (1-3 prefixes, illegal entries, client networks, excluded zones, A/AAAA exclusions) x AAAA-response shapes x A-response shapes x client flags/addresses, and ip6.arpa PTR names (valid, non-conformant, outside, malformed); a case is distinct non-trivial by (prefix lengths, AAAA shape, A shape, #A) when synthesised, by (sole reason, shapes) when suppressed, by (length, chase shape) for PTR")
+	r.Finish("pure: every octet-boundary IPv4 (0,1,127,128,255 per octet) plus random addresses x generated prefixes of each legal length, illegal lengths/IPv4//96-with-nonzero-u refused; pipeline: generated configs (1-3 prefixes, illegal entries, client networks, excluded zones, A/AAAA exclusions) x AAAA-response shapes x A-response shapes x client flags/addresses, and ip6.arpa PTR names (valid, non-conformant, outside, malformed); layer C: the same generators plus real failure-cache (EDNS / non-EDNS second client) and request-local-failure flows through [… edns … dns64, cache, stub] and [dns64, cache, stub], each case through ServeMsg, ServeRaw (udp|tcp strict job) and, for udp, the reader's inline pass + replay, under per-execution names; a case is distinct non-trivial by (prefix lengths, AAAA shape, A shape, #A) when synthesised, by (sole reason, shapes) when suppressed, by (length, chase shape) for PTR")
 }
